@@ -798,7 +798,73 @@ def _do_partial_batch_mix():
     do.partial = partial
 
 
+def _mdl_fcn_noreorder():
+    from torchphysics.models.fcn import FCN
+    from torchphysics.problem.spaces import Points
+    FCN.forward = lambda self, points: Points(self.sequential(points.as_tensor), self.output_space)
+
+
+def _mdl_parallel_positional():
+    import torch
+    from torchphysics.models.model import Parallel
+    from torchphysics.problem.spaces import Points
+
+    def forward(self, points):
+        out, k = [], 0
+        for model in self.models:
+            d = model.input_space.dim
+            out.append(model(Points(points.as_tensor[..., :d], model.input_space)))      # by position, not by name
+        return Points.joined(*out)
+    Parallel.forward = forward
+
+
+def _mdl_qres_batch_norm():
+    import torch
+    from torchphysics.models.qres import QRES
+    from torchphysics.problem.spaces import Points
+    old = QRES.forward
+
+    def forward(self, points):
+        out = old(self, points)
+        t = out.as_tensor
+        return Points(t - 0.01 * t.mean(dim=0, keepdim=True), out.space)              # rows see the rest of the batch
+    QRES.forward = forward
+
+
+def _mdl_sequential_skips_reorder():
+    from torchphysics.models.model import Sequential
+
+    def forward(self, points):
+        for model in self.models[:1]:
+            points = model(points)
+        for model in self.models[1:]:
+            from torchphysics.problem.spaces import Points
+            points = model(Points(points.as_tensor.flip(-1), points.space)) if points.as_tensor.shape[-1] == 2 else model(points)
+        return points
+    Sequential.forward = forward
+
+
+def _mdl_harmonic_missing_var_ok():
+    import torch
+    from torchphysics.models.model import Model
+
+    def fix(self, points):
+        if points.space != self.input_space:
+            keys = [k for k in self.input_space.keys() if k in points.space]
+            t = points[..., keys].as_tensor
+            pad = self.input_space.dim - t.shape[-1]
+            if pad > 0:
+                t = torch.cat([t, torch.zeros(*t.shape[:-1], pad)], dim=-1)            # missing variables silently zero
+            from torchphysics.problem.spaces import Points
+            return Points(t, self.input_space)
+        return points
+    Model._fix_points_order = fix
+
+
 REGISTRY = {
+    "mdl_fcn_noreorder": _mdl_fcn_noreorder, "mdl_parallel_positional": _mdl_parallel_positional,
+    "mdl_qres_batch_norm": _mdl_qres_batch_norm, "mdl_sequential_flip": _mdl_sequential_skips_reorder,
+    "mdl_missing_var_zero": _mdl_harmonic_missing_var_ok,
     "do_div_offset": _do_div_offset, "do_lap_first_only": _do_lap_first_only, "do_jac_transposed": _do_jac_transposed,
     "do_rot_sign": _do_rot_sign, "do_grad_sorted_vars": _do_grad_sorted_vars,
     "law_circle_nosqrt": _law_circle_nosqrt, "law_par_bd_equal_sides": _law_par_bd_equal_sides,
@@ -828,6 +894,7 @@ REGISTRY = {
     "dl_target_perm": _dl_target_perm, "dl_len_floor": _dl_len_floor, "dl_agg_global_mean": _dl_agg_sum,
 }
 BY_PROPERTY = {
+    "C08": ["mdl_fcn_noreorder", "mdl_parallel_positional", "mdl_qres_batch_norm", "mdl_sequential_flip", "mdl_missing_var_zero"],
     "C03": ["do_div_offset", "do_lap_first_only", "do_jac_transposed", "do_rot_sign", "do_grad_sorted_vars"],
     "C11": ["law_circle_nosqrt", "law_par_bd_equal_sides", "law_union_equal_weights", "law_gauss_std", "law_lhs_spill", "law_grid_squeezed"],
     "C06": ["nrm_par_flip", "nrm_cut_noflip", "nrm_union_wrong_operand", "nrm_circle_unnormalised", "nrm_tri_orientation_dropped"],
